@@ -2,7 +2,10 @@ module verifharness
 
 go 1.23.0
 
-require github.com/kercylan98/minotaur v0.0.0
+require (
+	github.com/kercylan98/minotaur v0.0.0
+	github.com/panjf2000/ants/v2 v2.9.1
+)
 
 require (
 	github.com/RussellLuo/timingwheel v0.0.0-20220218152713-54845bda3108 // indirect
@@ -14,7 +17,6 @@ require (
 	github.com/mattn/go-isatty v0.0.20 // indirect
 	github.com/modern-go/concurrent v0.0.0-20180306012644-bacd9c7ef1dd // indirect
 	github.com/modern-go/reflect2 v1.0.2 // indirect
-	github.com/panjf2000/ants/v2 v2.9.1 // indirect
 	github.com/pkg/errors v0.9.1 // indirect
 	github.com/puzpuzpuz/xsync/v3 v3.4.0 // indirect
 	github.com/twmb/murmur3 v1.1.8 // indirect
